@@ -151,7 +151,11 @@ def run(prog, rep, tier='quick', config='default'):
         k = '%s|%s' % (c.fn.name, short(c.callee))
         rep.info('R6a-site', k, where=c.where(), fn=c.fn.name, detail='lossy operation %s' % c.callee)
     # barrier functions: exact caller sets
+    from props import anchors
+    sv = anchors.sfl_validation(prog)
     for bname, (reason, allowed) in BARRIERS.items():
+        if sv is not None:
+            allowed = {sv.name if a == 'portfolio::bookkeeping::delta_list::get_delta_superficial_loss_info' else a for a in allowed}
         b = prog.fn(bname)
         if b is None:
             if config == 'default' and 'excel' not in bname:
@@ -251,7 +255,7 @@ def r6b(prog, rep, config):
                 t = b['term']
                 if t and t['t'] == 'switch' and is_place(t['discr']) and mir.place_fields(t['discr']['pl'])[-1:] == [(adt, fld)]:
                     seeds.add(-1)
-                    if adt == 'portfolio::render::PrintHelper' and not fn.name.endswith('PrintHelper::curr_str'):
+                    if adt == 'portfolio::render::PrintHelper' and not is_formatter(prog, fn):
                         viol += 1
                         rep.violation('R6b', '%s|branch-on-%s' % (fn.name, fld), where=fn.where(t), fn=fn.name,
                                       detail='PrintHelper.%s is branched on outside curr_str' % fld)
@@ -259,7 +263,7 @@ def r6b(prog, rep, config):
             if not seeds:
                 continue
             if adt == 'portfolio::render::PrintHelper':
-                if not fn.name.endswith('PrintHelper::curr_str'):
+                if not is_formatter(prog, fn):
                     viol += 1
                     rep.violation('R6b', '%s|reads-%s' % (fn.name, fld), fn=fn.name, where='%s:%d' % (fn.file, fn.line),
                                   detail='PrintHelper.%s is read outside the currency formatter curr_str' % fld)
@@ -277,6 +281,11 @@ def r6b(prog, rep, config):
                       % (len(members_p) + len(members_f), len(members_p), len(members_f), n_uses))
     if len(members_p) < 4 and config == 'default':
         rep.violation('R6b', 'anchor-lost:flag-chain', detail='anchor lost: the flag chain from the command line to PrintHelper has only %d links' % len(members_p))
+
+
+def is_formatter(prog, fn):
+    """the PrintHelper method that turns a value into text: it calls the cent formatter (by shape, not by name)"""
+    return fn.name.startswith('portfolio::render::PrintHelper::') and any(c.callee.endswith('util::decimal::dollar_precision_str') for c in fn.calls)
 
 
 def absorb(prog, fn, operand, members_p, members_f):
